@@ -21,7 +21,7 @@ import (
 )
 
 type opIn struct {
-	T   string    `json:"t"` // S U M
+	T   string    `json:"t"` // S U M C(lear)
 	K   int       `json:"k,omitempty"`
 	V   [4]uint64 `json:"v"`
 	Src *srcIn    `json:"src,omitempty"`
@@ -326,6 +326,10 @@ func run(raw json.RawMessage, opt vhlib.Opts) (*vhlib.Case, error) {
 			use(o.K)
 			ops = append(ops, coqOp(o))
 			panicked, pmsg = vhlib.Recover(func() { w.apply(m, o) })
+		case "C":
+			ops = append(ops, "OCl")
+			tag("clear")
+			panicked, pmsg = vhlib.Recover(func() { m.Clear() })
 		case "M":
 			src := newMap(o.Src.Hint, o.Src.Seed)
 			sused := map[int]bool{}
@@ -376,7 +380,7 @@ func run(raw json.RawMessage, opt vhlib.Opts) (*vhlib.Case, error) {
 			sinceGrow++
 		}
 		switch {
-		case o.T == "M" && fullN < in.MaxFull+2:
+		case (o.T == "M" || o.T == "C") && fullN < in.MaxFull+2:
 			checkpoint(true)
 		case nold > 0 && (sinceGrow == 0 || sinceGrow == 3) && fullN < in.MaxFull:
 			checkpoint(true)
@@ -464,6 +468,7 @@ type plan struct {
 	merges  int
 	maxfull int
 	updPct  int
+	clears  int
 }
 
 func genKeys(r *vhlib.Rand, p plan, seed uint64) [][]byte {
@@ -583,6 +588,12 @@ func build(r *vhlib.Rand, p plan) input {
 			in.Ops = append(in.Ops, main[i])
 		}
 	}
+	if p.clears > 0 && len(in.Ops) > 0 {
+		for c := 0; c < p.clears; c++ {
+			at := r.Intn(len(in.Ops) + 1)
+			in.Ops = append(in.Ops[:at], append([]opIn{{T: "C"}}, in.Ops[at:]...)...)
+		}
+	}
 	np := min(8, p.nkeys)
 	for i := 0; i < np; i++ {
 		in.Probe = append(in.Probe, 1+r.Intn(p.nkeys))
@@ -654,6 +665,14 @@ func fixed(i int, r *vhlib.Rand) *input {
 		p := base
 		p.hint, p.nkeys, p.nops = 1000, 60, 60
 		return mk(p)
+	case 16: // fill, Clear, re-use, Clear twice, re-use (Clear on an empty map is a no-op)
+		in := build(r, plan{kind: "v4", cluster: "uniform", nkeys: 40, nops: 0, maxfull: 3})
+		f := 0
+		in.Ops = append(genOps(r, 28, 40, 0, &f), opIn{T: "C"})
+		in.Ops = append(in.Ops, genOps(r, 12, 40, 50, &f)...)
+		in.Ops = append(in.Ops, opIn{T: "C"}, opIn{T: "C"})
+		in.Ops = append(in.Ops, genOps(r, 5, 40, 50, &f)...)
+		return &in
 	}
 	return nil
 }
@@ -689,6 +708,9 @@ func gen(r *vhlib.Rand, i int, o vhlib.Opts) any {
 	p.nkeys = max(1, p.nops*(100-p.updPct/2)/100)
 	if r.Chance(35) || o.Search && r.Chance(30) {
 		p.merges = 1 + r.Intn(3)
+	}
+	if r.Chance(15) {
+		p.clears = 1 + r.Intn(2)
 	}
 	return build(r, p)
 }
